@@ -7,6 +7,9 @@ CONSTANTS
   MaxFaults = 1
   Emit = TRUE
   FixDup = TRUE
+  AutoSave = FALSE
+  MaxEnv = 0
+  FullLast = FALSE
   DupAlso = FALSE
 INVARIANTS Safe SafeWire NeverCompleteOnDamage CompleteWhenInOrder DupIsTheOnlyDeviation ClassesAgree EmitScn
 CHECK_DEADLOCK FALSE
